@@ -7,14 +7,18 @@
 Q=$1; MODE=$2; shift 2
 S=/tmp/vq/$Q; R=/tmp/vq/$Q-repo
 mkdir -p /tmp/vq
+if [ -z "$KEEP" ] || [ ! -d $S ]; then
 rsync -a --delete --exclude .git --exclude replays --exclude seeded /verif/ $S/
 git -C /repo worktree remove --force $R 2>/dev/null; git -C /repo worktree add -q --detach $R HEAD || exit 2
 rm -f $S/harness/repo; ln -s $R $S/harness/repo
 rm -f $S/probe/repo; ln -s $R $S/probe/repo
 rm -rf $S/.build   # cargo fingerprints copied from /verif name /repo: force a rebuild against the worktree
+else   # KEEP=1: reuse the snapshot's build output, refresh the scripts only
+rsync -a --exclude .git --exclude replays --exclude seeded --exclude .build --exclude lean/.lake --exclude harness/repo --exclude probe/repo /verif/ $S/
+fi
 export VERIF_REPO=$R
 [ "$MODE" = mut ] && export VERIF_DEV_SKIP_PROOF=1
-cd $S
+cd $S; rm -rf $S/replays
 for P in "$@"; do
   echo "### $P"
   git -C $R checkout -q -- . ; git -C $R apply $P || { echo "PATCH DOES NOT APPLY"; continue; }
